@@ -380,7 +380,8 @@ class Scenario:
     def _plant_rot(self):
         case = self.case
         for t, hx_ in (case.get("dst_rot") or {}).items():
-            impl.plant(self.p_dst, self.oid[t], bytes.fromhex(hx_), mode=0o644)
+            # any mode other than 0o444 is "not write-protected by this library" (0o544 / 0o555: read-only but executable)
+            impl.plant(self.p_dst, self.oid[t], bytes.fromhex(hx_), mode=int(case.get("dst_rot_mode", 0o644)))
         for t in case.get("dst_unprot") or []:
             os.chmod(os.path.join(self.p_dst, self.oid[t][:2], self.oid[t][2:]), 0o644)
         for t, name, hx_ in case.get("dst_junk") or []:
@@ -1446,6 +1447,9 @@ def add_rot(rng, case, notes, prop):
         rot[t] = b.hex()
         case["dst"].pop(t, None)
     case["dst_rot"] = rot
+    m = rng.choice([0o644, 0o644, 0o544, 0o555, 0o600, 0o664])
+    if m != 0o644:
+        case["dst_rot_mode"] = m
     return True
 
 
@@ -1860,7 +1864,7 @@ def builtin_corpus(prop):
     # seeded change C11/r5m1: a local destination holds a damaged, NOT write-protected copy of the
     # listed file f1: status() re-hashes and removes it, f1 counts as absent and is uploaded
     out.append({"prop": prop, "files": f, "dirs": d, "src": allsrc, "cache": None, "dst": {"f3": None},
-                "dst_rot": {"f1": hx(b"bet")}, "req": ["d0.dir", "f0", "f1"], "shallow": True, "verify": False,
+                "dst_rot": {"f1": hx(b"bet")}, "dst_rot_mode": 0o544, "req": ["d0.dir", "f0", "f1"], "shallow": True, "verify": False,
                 "src_cls": "base", "dst_cls": "local", "dix": False, "six": False,
                 "rounds": [{"fails": [], "crash": None, "reset": True},
                            {"fails": [], "crash": None, "reset": False}]})
